@@ -625,7 +625,7 @@ def node(w, hist, cfg, res):
 
 # ------------------------------------------------- wrapper storages
 
-WRAPPERS = ('DMF', 'DFM', 'DMM', 'BF', 'BM', 'VF', 'VM')
+WRAPPERS = ('DMF', 'DFM', 'DMM', 'BF', 'BM', 'Bn', 'VF', 'VM')
 
 
 def mk_wrapper(kind, d):
@@ -643,6 +643,9 @@ def mk_wrapper(kind, d):
         return BS(os.path.join(d, 'blobs'), FS(os.path.join(d, 'D.fs')))
     if kind == 'BM':
         return BS(os.path.join(d, 'blobs'), MS('m'))
+    if kind == 'Bn':
+        # a FileStorage with its own (native) blob support
+        return FS(os.path.join(d, 'N.fs'), blob_dir=os.path.join(d, 'blobs'))
     if kind in ('VF', 'VM'):
         # what a connection talks to: an instance of the MVCC adapter
         MVCC = env.mod('ZODB.mvccadapter').MVCCAdapter
@@ -821,7 +824,10 @@ def wrapper_scenario(kind, v):
                                                   hclasses.mkrec('P', 9),
                                                   '', other)),
                         ('tpc_vote', lambda: s.tpc_vote(other)),
-                        ('tpc_finish', lambda: s.tpc_finish(other))):
+                        ('tpc_finish', lambda: s.tpc_finish(other))) + ((
+                            ('storeBlob', lambda: s.storeBlob(
+                                p64(2), tid1, hclasses.mkrec('P', 99),
+                                blobfile(99), '', other)),) if blob else ()):
                     r = call(f)
                     if not (isinstance(r, Exc) and r.name ==
                             'StorageTransactionError'):
